@@ -25,7 +25,13 @@ use crate::{
     world::{gen_ent, world, Ent, GenCfg},
 };
 
-pub struct Crash;
+/// `long`: histories of 60-200 operations that rarely commit, so that many modifications pile
+/// up in one write transaction (anything that rolls the transaction over by size or count rather
+/// than by age shows up here); crash points and loss models are still enumerated completely,
+/// age-commit placements are sampled.
+pub struct Crash {
+    pub long: bool,
+}
 
 #[derive(Serialize, Deserialize, Clone, Debug)]
 pub enum COp {
@@ -57,6 +63,11 @@ pub struct CrashPlan {
     pub io_error: Option<(u64, u8)>,
     /// sampled double placements (op, call), (op, call)
     pub double: Vec<((usize, u32), (usize, u32))>,
+    /// long histories: single placements are sampled (these) instead of enumerated
+    #[serde(default)]
+    pub long: bool,
+    #[serde(default)]
+    pub single: Vec<(usize, u32)>,
 }
 
 #[derive(Clone, Default, Debug, PartialEq, Eq)]
@@ -161,10 +172,13 @@ fn observe(store: &mut Store) -> Result<Obs, String> {
 impl Scenario for Crash {
     type Plan = CrashPlan;
     fn name(&self) -> String {
-        "crash".into()
+        if self.long { "crash-long".into() } else { "crash".into() }
     }
 
     fn gen(&self, rng: &mut Rng, tier: Tier) -> CrashPlan {
+        if self.long {
+            return gen_long(rng, tier);
+        }
         let ndocs = rng.range(1, 2) as u8;
         let g = GenCfg { docs: ndocs, authors: rng.range(1, 2) as u8, max_key_len: 3, ts_values: 6, marker_pct: 30, contents: 3 };
         let n = rng.urange(3, tier.pick(6, 10));
@@ -203,6 +217,8 @@ impl Scenario for Crash {
             l3_samples: if thorough { 24 } else { 0 },
             io_error: if thorough && rng.chance(1, 2) { Some((rng.below(120), rng.below(3) as u8)) } else { None },
             double: (0..if thorough { 6 } else { 2 }).map(|_| ((rng.usize_below(nops), rng.below(5) as u32), (rng.usize_below(nops), rng.below(5) as u32))).collect(),
+            long: false,
+            single: vec![],
         }
     }
 
@@ -217,9 +233,10 @@ impl Scenario for Crash {
             p.ops = c;
             out.push(p);
         }
-        if !plan.double.is_empty() {
+        if !plan.double.is_empty() || !plan.single.is_empty() {
             let mut p = plan.clone();
             p.double.clear();
+            p.single.clear();
             out.push(p);
         }
         if plan.l3_samples > 0 || plan.io_error.is_some() {
@@ -267,7 +284,64 @@ impl Scenario for Crash {
     }
 
     fn rule(&self) -> String {
+        if self.long {
+            return "Histories of 60-220 operations, mostly writes at few keys with mostly increasing timestamps (overwrites and prefix deletions keep pruning), single-step modifications in between, and no or hardly any committing operation, so that up to several hundred modifications pile up in one write transaction; per history every crash point x loss model (L1, L2) is judged, with no age commit and with 0-2 sampled single placements. evaluations = crash scenarios judged; distinct = distinct reopened images.".into();
+        }
         "Histories of 3-12 operations (remote/local inserts and deletions, multi-entry messages, policies, peers, capability imports, document removal, flush, reads) are sampled; per history the crash-point x loss-model (L1, L2) x single-age-commit-placement space is enumerated completely (thorough adds sampled L3/torn images, I/O errors and more double placements). evaluations = crash scenarios judged (placement, crash point, loss); distinct = distinct reopened images (by rolling hash of the write log prefix).".into()
+    }
+}
+
+/// Long histories: mostly writes at few keys (so that overwrites and prefix deletions keep pruning),
+/// single-step modifications in between (they shift the parity of the modification count), and
+/// hardly any operation that commits.
+fn gen_long(rng: &mut Rng, tier: Tier) -> CrashPlan {
+    let ndocs = rng.range(1, 2) as u8;
+    let g = GenCfg { docs: ndocs, authors: rng.range(1, 2) as u8, max_key_len: rng.urange(2, 3), ts_values: rng.range(6, 40), marker_pct: *rng.pick(&[10, 30]), contents: 3 };
+    let n = rng.urange(60, tier.pick(140, 220));
+    let mut ops = Vec::new();
+    for d in 0..ndocs {
+        ops.push(COp::ImportCap { d, write: true });
+    }
+    for _ in 0..rng.urange(0, 4) {
+        ops.push(COp::Offer { e: gen_ent(rng, &g), path: Path::Remote });
+    }
+    ops.push(COp::Flush);
+    // how rarely a committing operation appears: never, or about once in 50 / 120 operations
+    let commit_every = *rng.pick(&[0u64, 0, 50, 120]);
+    let mut ts = 1u64;
+    for _ in 0..n {
+        let d = rng.below(ndocs as u64) as u8;
+        let op = if commit_every > 0 && rng.chance(1, commit_every) {
+            match rng.below(3) { 0 => COp::Flush, 1 => COp::Read { d }, _ => COp::List { authors: rng.chance(1, 2) } }
+        } else {
+            match rng.below(20) {
+                0..=13 => {
+                    let mut e = gen_ent(rng, &g);
+                    // mostly increasing timestamps: later writes replace and prune earlier ones
+                    if rng.chance(3, 4) {
+                        ts += rng.below(2);
+                        e.ts = ts;
+                    }
+                    COp::Offer { e, path: match rng.below(4) { 0 => Path::Local, _ => Path::Remote } }
+                }
+                14 => COp::Message { es: (0..rng.urange(1, 3)).map(|_| { let mut e = gen_ent(rng, &g); e.d = d; e }).collect() },
+                15 => COp::SetPolicy { d, p: gen_policy(rng) },
+                16 | 17 => COp::Register { d, peer: rng.below(7) as u8 },
+                18 => COp::ImportCap { d, write: rng.chance(1, 2) },
+                _ => COp::Peek { d, kind: rng.below(5) as u8 },
+            }
+        };
+        ops.push(op);
+    }
+    let nops = ops.len();
+    CrashPlan {
+        seed: rng.next_u64(),
+        ops,
+        l3_samples: 0,
+        io_error: None,
+        double: vec![],
+        long: true,
+        single: (0..rng.urange(0, 2)).map(|_| (rng.usize_below(nops), rng.below(4) as u32)).collect(),
     }
 }
 
@@ -507,9 +581,17 @@ async fn run(plan: &CrashPlan, cx: &mut Cx) -> Res {
     // 1. baseline: count internal store calls per op
     let base = execute(plan, &[], None).await?;
     let mut placements: Vec<Vec<(usize, u32)>> = vec![vec![]];
-    for (k, n) in base.calls.iter().enumerate() {
-        for j in 0..*n {
-            placements.push(vec![(k, j)]);
+    if plan.long {
+        for a in &plan.single {
+            if a.0 < base.calls.len() && a.1 < base.calls[a.0].max(1) {
+                placements.push(vec![*a]);
+            }
+        }
+    } else {
+        for (k, n) in base.calls.iter().enumerate() {
+            for j in 0..*n {
+                placements.push(vec![(k, j)]);
+            }
         }
     }
     for (a, b) in &plan.double {
